@@ -57,6 +57,7 @@ from .asttypes import (
     AsyncFor,
     AsyncFunctionDef,
     AsyncWith,
+    AnnAssign,
     AugAssign,
     BitAnd,
     BitOr,
@@ -3614,6 +3615,9 @@ class FST:
 
             self._parenthesize_grouping(whole)
 
+            if (parent := self.parent) and parent.a.__class__ is AnnAssign and self.pfield.name == 'target':  # '(x): int' is not simple
+                parent.a.simple = 0
+
         return self
 
     def unpar(self, node: bool | Literal['invalid'] = False, *, shared: bool | None = True) -> FST:  # -> self
@@ -3730,6 +3734,9 @@ class FST:
                 modifying = self._modifying().enter()
 
                 self._unparenthesize_grouping(shared)
+
+                if ast_cls is Name and (parent := self.parent) and parent.a.__class__ is AnnAssign and self.pfield.name == 'target':  # 'x: int' is simple
+                    parent.a.simple = 1
 
             if node:
                 if ast_cls in (Tuple, MatchSequence) or (node == 'invalid' and ast_cls in ASTS_LEAF_DELIMITED):
